@@ -84,22 +84,11 @@ Local Notation prealloc := (prealloc M TH PG OV jk true).
 
 (* ---------------------------------------------------------------- operator-= *)
 
-Definition l0_minus (l x : list N) : list N :=
-  match x with
-  | [] => l
-  | _ => match l0_last_index_of1 l x with
-         | Zneg _ => l
-         | z => takeN (Z.to_N z) l ++ dropN (Z.to_N z + lenN x) l
-         end
-  end.
-
 Lemma minus_ch_spec s ch : inv s ->
   inv (minus_ch s ch) /\
-  abs (minus_ch s ch) = match l0_last_index_of_ch (abs s) ch 0 with
-                        | Zneg _ => abs s
-                        | z => takeN (Z.to_N z) (abs s) ++ dropN (Z.to_N z + 1) (abs s) end.
+  abs (minus_ch s ch) = l0_minus_ch (abs s) ch.
 Proof.
-  intros I. unfold StrModel.minus_ch.
+  intros I. unfold StrModel.minus_ch, l0_minus_ch.
   destruct (l0_last_index_of_ch (abs s) ch 0) as [|p|p] eqn:E.
   - destruct (last_index_of_ch_bound _ _ _ E) as [B _]; [lia|]. rewrite (lenN_abs s I) in B.
     apply cut_spec; trivial. cbn [Z.to_N] in *. lia.
@@ -158,13 +147,13 @@ Qed.
 (* ---------------------------------------------------------------- Replace(String, String) *)
 
 Lemma replace_s_spec s rm wm max from :
-  inv s -> osrc_ok rm -> osrc_ok wm ->
+  inv s -> osrc_ok wm ->
   slen s + snd (osrc s wm) * slen s + 1 <= LIM ->
   let r := replace_s1 s rm wm max from in
   let r0 := l0_replace_sub (abs s) (src_bytes (osrc s rm)) (src_bytes (osrc s wm)) max from in
   inv (fst r) /\ abs (fst r) = fst r0 /\ snd r = Z.of_N (snd r0).
 Proof.
-  intros I Orm Owm B r r0. unfold r, r0, StrModel.replace_s1. clear r r0.
+  intros I Owm B r r0. unfold r, r0, StrModel.replace_s1. clear r r0.
   set (me := abs s). set (rb := src_bytes (osrc s rm)). set (wb := src_bytes (osrc s wm)).
   assert (Lme : lenN me = slen s) by apply (lenN_abs s I).
   assert (SOw : src_ok (osrc s wm)) by (destruct wm as [x|]; [apply Owm|now apply src_ok_of]).
@@ -197,11 +186,11 @@ Proof.
   fold me rb wb.
   destruct (l0_replace_sub me rb wb max from) as [res cnt] eqn:ER. cbn [fst snd] in *.
   assert (Cle : cnt <= slen s).
-  { Show. assert (0 < lenN rb) by lia. nia. }
+  { pose proof (l0_count_sub_le me rb from) as Hc. clearbody me rb wb. clear - E3 F1 Hc Lme. assert (0 < lenN rb) by lia. nia. }
   destruct (lenN rb <? lenN wb) eqn:E6.
-  - apply N.ltb_lt in E6. rewrite <- F1.
+  - apply N.ltb_lt in E6. rewrite (N.min_comm (l0_count_sub me rb from) max), <- F1.
     destruct (cnt =? 0) eqn:E7.
-    { apply N.eqb_eq in E7. cbn [fst snd]. subst cnt. splits; trivial. symmetry. now apply F3. }
+    { apply N.eqb_eq in E7. cbn [fst snd]. splits; trivial; [symmetry; now apply F3|now rewrite E7]. }
     apply N.eqb_neq in E7.
     assert (Lres : lenN res = slen s + (lenN wb - lenN rb) * cnt) by nia.
     rewrite <- Lres.
@@ -213,7 +202,7 @@ Proof.
     rewrite N.add_0_l in *. rewrite takeN_0 in X2. cbn [app] in X2. splits; trivial.
   - apply N.ltb_ge in E6.
     destruct (cnt =? 0) eqn:E7.
-    { apply N.eqb_eq in E7. cbn [fst snd]. subst cnt. splits; trivial. symmetry. now apply F3. }
+    { apply N.eqb_eq in E7. cbn [fst snd]. splits; trivial; [symmetry; now apply F3|now rewrite E7]. }
     cbn [fst snd]. pose proof (inv_lt _ I).
     destruct (commit_at s 0 res I) as (X1 & X2); [lia| nia |].
     rewrite N.add_0_l in *. rewrite takeN_0 in X2. cbn [app] in X2. splits; trivial.
